@@ -12,8 +12,9 @@ import sys
 import time
 
 prop, X = sys.argv[1], sys.argv[2]
-wt = "/tmp/seed-%s" % prop
-out = "/tmp/seed-%s-out" % prop
+prefix = os.environ.get("SEED_PREFIX", "seed")
+wt = "/tmp/%s-%s" % (prefix, prop)
+out = "/tmp/%s-%s-out" % (prefix, prop)
 md = open(os.path.join(out, X + ".md")).read()
 m = re.search(r"crates/([a-z_]+)/tests/([A-Za-z0-9_]+)\.rs", md)
 crate, tname = m.group(1), m.group(2)
